@@ -51,6 +51,7 @@ func loadWorld(m ModuleCfg, externDir string, opts Options) (*World, error) {
 		w.fset = pkgs[0].Fset
 	}
 	w.fl.strTheory = m.StrTheory
+	w.mcfg = m
 	for _, s := range m.Scope {
 		w.scope[s] = true
 		w.inlineOK[s] = true
